@@ -8,6 +8,8 @@ from graphql import (
     EnumValueNode,
     FloatValueNode,
     GraphQLEnumType,
+    GraphQLError,
+    GraphQLInputField,
     GraphQLInputObjectType,
     GraphQLList,
     GraphQLNonNull,
@@ -19,6 +21,8 @@ from graphql import (
     NullValueNode,
     ObjectValueNode,
     StringValueNode,
+    Undefined,
+    ast_from_value,
 )
 
 from ..codegen import (
@@ -95,14 +99,34 @@ def parse_input_field_type(
     raise ParsingError("Invalid input field type.")
 
 
+def get_default_value_node(
+    field: Optional[GraphQLInputField],
+) -> Optional[ConstValueNode]:
+    """Rebuild the default literal of a field that has no SDL node (introspection)."""
+    if field is None or field.default_value is Undefined:
+        return None
+    try:
+        return cast(
+            Optional[ConstValueNode], ast_from_value(field.default_value, field.type)
+        )
+    except (TypeError, GraphQLError):
+        return None
+
+
 def parse_input_field_default_value(
     node: Optional[InputValueDefinitionNode],
     annotation: Annotation,
     field_type: str = "",
+    field: Optional[GraphQLInputField] = None,
 ) -> Optional[ast.expr]:
-    if node and node.default_value:
+    default_value_node = (
+        node.default_value
+        if node and node.default_value
+        else get_default_value_node(field)
+    )
+    if default_value_node:
         return parse_input_const_value_node(
-            node=node.default_value, field_type=field_type
+            node=default_value_node, field_type=field_type
         )
 
     if (node and not isinstance(node.type, NonNullTypeNode)) or (
